@@ -317,8 +317,9 @@ Corollary randmio_signed_inv und n R itr s Rf sf tr : (0 < n)%nat -> pre und n R
   randmio_signed und n R itr s = (Rf, sf, tr) ->
   sinv und n R Rf /\ Forall (fun e => sinv und n R (snd e)) tr.
 Proof.
-  intros Hn Hpre H. unfold randmio_signed in H.
-  eapply signed_run_inv; eauto. apply sinv_refl. exact Hpre.
+  intros Hn Hpre H. unfold randmio_signed in H. destruct (n <? 4)%nat.
+  - injection H as <- _ <-. split; [apply sinv_refl; exact Hpre|constructor].
+  - eapply signed_run_inv; eauto. apply sinv_refl. exact Hpre.
 Qed.
 
 (* ---------- the sign indicators are sign-only statistics ---------- *)
